@@ -350,7 +350,7 @@ Proof.
 Qed.
 
 (* ------------------------------------------------------------------ the trichotomy *)
-Definition singular_exit (dense : bool) : outcome ost := if dense then ErrSingular else PanicSingular.
+(* the singular: label of BOTH paths returns the error at HEAD (/repo 74e12ad; the generic path panicked before) *)
 
 Lemma ext_lengths (s s' : ost) : ext s s' ->
   length (sa s') = length (sa s) /\ length (sx s') = length (sx s) /\ length (sb s') = length (sb s).
@@ -359,7 +359,7 @@ Proof. intros ((H1 & _) & (H2 & _) & (H3 & _)). auto. Qed.
 Lemma gj_nan_aware_cases dense (s0 : st (A:=K)) : wf_st K n s0 ->
   ((forall c, In c (gj_pivots N n msk s0) -> c <> f0 K) /\
    exists s', gj_run N dense false n msk s0 = Ok s' /\ gj_run O dense false n msk (lst K s0) = Ok (lst K s'))
-  \/ gj_run O dense false n msk (lst K s0) = singular_exit dense
+  \/ gj_run O dense false n msk (lst K s0) = ErrSingular
   \/ exists s', gj_run O dense false n msk (lst K s0) = Ok s' /\ nonfinite K isz n s'.
 Proof.
   intros Hwf.
@@ -405,7 +405,7 @@ Qed.
 (* structurally singular input: singular exit, or a result with a non-finite entry — never a finite one *)
 Lemma singular_never_finite dense (s0 : st (A:=K)) : wf_st K n s0 ->
   (exists r, zero_row K S (sa s0) r) \/ (exists c, zero_col K S (sa s0) c) \/ (exists r1 r2, same_rows K S (sa s0) r1 r2) ->
-  gj_run O dense false n msk (lst K s0) = singular_exit dense \/
+  gj_run O dense false n msk (lst K s0) = ErrSingular \/
   exists s', gj_run O dense false n msk (lst K s0) = Ok s' /\ nonfinite K isz n s'.
 Proof.
   intros Hwf Hsing. destruct (gj_nan_aware_cases dense s0 Hwf) as [[Hnz _]|H]; [|exact H]. exfalso.
@@ -462,7 +462,7 @@ Qed.
 
 Lemma inverse_singular_never_finite dense (m : list (list K)) : wf_mat K n m ->
   (exists r, zero_row K S m r) \/ (exists c, zero_col K S m c) \/ (exists r1 r2, same_rows K S m r1 r2) ->
-  m_inverse O dense InvPlain n msk (lm K m) = (if dense then ErrSingular else PanicSingular) \/
+  m_inverse O dense InvPlain n msk (lm K m) = ErrSingular \/
   exists X, m_inverse O dense InvPlain n msk (lm K m) = Ok X /\ exists r k, r < n /\ mget O X r k = None.
 Proof.
   intros Hwf Hsing. unfold m_inverse. rewrite inverse_init_lst.
